@@ -171,7 +171,9 @@ def events(darsia, rng, shapes, quick, arrangements):
     # axis reduction by index and by Cartesian name
     for dim, shp in [(2, (2, 3)), (2, (3, 1)), (3, (2, 3, 2)), (3, (1, 2, 3))]:
         a = rand_arr(rng, shp, "float64")
-        img = image(darsia, a, [0.5, 0.25, 2.0][:dim], "3d" if dim == 3 else "scalar")
+        # a user-specified origin with different components (a sub-volume, a georeferenced image)
+        img = image(darsia, a, [0.5, 0.25, 2.0][:dim], "3d" if dim == 3 else "scalar", origin=[3.0, 7.5, -2.0][:dim])
+        placed = {}
         for ax in range(dim):
             name = {2: {0: "y", 1: "x"}, 3: {0: "z", 1: "x", 2: "y"}}[dim][ax]
             for axis_arg in (ax, name):
@@ -182,6 +184,12 @@ def events(darsia, rng, shapes, quick, arrangements):
                         e["res"] = ints(out.img, shp[ax] if mode == "average" else 1)
                         keep = [d for i_, d in enumerate(img.dimensions) if i_ != ax]
                         e["dims_kept"] = int(np.allclose(out.dimensions, keep) and out.space_dim == dim - 1)
+                        # the retained axes keep their place: addressing the axis by matrix index or by its Cartesian name puts
+                        # the reduced image at the same position
+                        place = [float(x) for x in np.asarray(out.origin, dtype=float)]
+                        if (ax, mode) in placed and not np.allclose(placed[(ax, mode)], place, rtol=0, atol=1e-12):
+                            e["dims_kept"] = 0
+                        placed.setdefault((ax, mode), place)
                     except Exception as ex:  # noqa
                         e["raised"] = 1
                         e["error"] = repr(ex)[:160]
